@@ -94,4 +94,20 @@ CLAIMED['C13'] = dict(
          '(estring_view, std::sort), chunked transfer coding reader/writer, "same parse for every fragmentation" beyond these kernels.',
     technique='deductive verification: Hoare loop rule + loop-free full-domain CBMC harnesses on mechanically lowered real code; native replay',
     design='§6 C13')
+CLAIMED['C02'] = dict(
+    category='proof',
+    text='Kernel only (the property quantifies over schedules; contracts decide the sequential functions and atomic steps it rests on): '
+         'semaphore::try_subtract (CAS retry loop, Hoare loop rule under an interference model), semaphore::signal and '
+         'semaphore::wait_interruptible (DEFER/SCOPED_LOCK lowered mechanically; the sleep is a stub) are lowered from /repo on every run. '
+         'Proved for all counts: try_subtract returns true exactly when this call took `count` tokens once and false only after observing '
+         'fewer than `count`; signal adds exactly `count` once and then resumes with the new value under the lock; wait returns 0 only after '
+         'taking exactly `count`, a failed wait takes nothing, restores errno, clears the published demand, releases the lock on every path, '
+         'queues the waiter while still holding the lock, and in in-order mode passes on the tokens it was blocking.  A single-step lemma shows '
+         'these transitions preserve count == initial + signalled - taken.',
+    note=TRUST + ' NOT decided: no-lost-wake-up as a liveness property, which waiters try_resume wakes, safe destruction after wait returns, '
+         'cross-thread timing; atomics are modelled sequentially consistent; other threads are assumed to write the count only while holding '
+         'splock (closed world over signal/wait_interruptible); "invariant preserved by every atomic step => holds in every interleaving" is a '
+         'paper argument.',
+    technique='deductive verification: step contracts under an interference (rely) model + invariant-preservation lemma, CBMC on mechanically lowered real code',
+    design='§6 C02, §3.4')
 NA = {}
